@@ -11,8 +11,8 @@ if [ "$REPO" != /repo ]; then   # background sweeps against a snapshot of the re
   export GOFLAGS="-mod=mod -modfile=$(pwd)/harness/go.alt.mod"
 fi
 (cd harness && go build -o bin/tablegen ./cmd/tablegen && go build -o bin/translate ./cmd/translate && go build -o bin/corr ./cmd/corr)
-rm -f lean/Bio/Generated/Tables.lean lean/Bio/Generated/Flag.lean lean/Bio/Generated/Src.lean
-(cd harness && ./bin/tablegen ../lean/Bio/Generated/Tables.lean && ./bin/translate $REPO/formats/sam/flag.go ../lean/Bio/Generated/Flag.lean && ./bin/translate -src $REPO ../lean/Bio/Generated/Src.lean)
+rm -f lean/Bio/Generated/Tables.lean lean/Bio/Generated/Flag.lean lean/Bio/Generated/Src.lean lean/Bio/Generated/GoSrc.lean
+(cd harness && ./bin/tablegen ../lean/Bio/Generated/Tables.lean && ./bin/translate $REPO/formats/sam/flag.go ../lean/Bio/Generated/Flag.lean && ./bin/translate -src $REPO ../lean/Bio/Generated/Src.lean && ./bin/translate -go $REPO ../lean/Bio/Generated/GoSrc.lean)
 (cd lean && lake build Bio biodriver)
 # the property modules (some may legitimately fail to build if /repo violates a property; checks report that)
 (cd lean && lake build Bio.Props.All) || true
